@@ -651,6 +651,101 @@ pub fn judge_as(prop: &str, d: &Def, unit: &Value, p: &bpaf::OptionParser<Val>, 
     });
 }
 
+// ------------------------------------------------------------------------------------------
+// an option-struct with short names (-r [-t] [-f] -w W): a block written with combined words
+// (-rt, -tf, -w1) is the same block as the spelled-out one
+// ------------------------------------------------------------------------------------------
+fn shortstruct_opts() -> Opts {
+    let g = P::Adj(vec![P::ReqFlag(Names::short('r')), P::Switch(Names::short('t')), P::Switch(Names::short('f')), P::arg(Names::short('w'), Ty::Os)]);
+    Opts::new(P::Seq(vec![P::Switch(Names::short('v')), g.many()]))
+}
+
+/// the ways of joining one or all pairs of neighbouring words of an accepted spelled-out line
+fn joined_spellings(argv: &[Tok]) -> Vec<Vec<Tok>> {
+    let w: Vec<String> = argv.iter().map(|t| t.lossy()).collect();
+    let flag = |s: &str| matches!(s, "-r" | "-t" | "-f" | "-v");
+    let mut out = vec![];
+    for i in 0..w.len().saturating_sub(1) {
+        let joined = if flag(&w[i]) && flag(&w[i + 1]) {
+            Some(format!("{}{}", w[i], &w[i + 1][1..]))
+        } else if w[i] == "-w" && w[i + 1] == "1" {
+            Some("-w1".to_string())
+        } else {
+            None
+        };
+        if let Some(j) = joined {
+            let mut v: Vec<Tok> = argv[..i].to_vec();
+            v.push(Tok::s(&j));
+            v.extend(argv[i + 2..].iter().cloned());
+            out.push(v);
+        }
+    }
+    // every maximal run of flags as one word, every `-w 1` as `-w1`
+    let mut all: Vec<String> = vec![];
+    let mut i = 0;
+    while i < w.len() {
+        if flag(&w[i]) {
+            let mut word = w[i].clone();
+            while i + 1 < w.len() && flag(&w[i + 1]) {
+                word.push_str(&w[i + 1][1..]);
+                i += 1;
+            }
+            all.push(word);
+        } else if w[i] == "-w" && w.get(i + 1).map(|s| s.as_str()) == Some("1") {
+            all.push("-w1".into());
+            i += 1;
+        } else {
+            all.push(w[i].clone());
+        }
+        i += 1;
+    }
+    if all.len() < w.len() {
+        out.push(all.iter().map(|s| Tok::s(s)).collect());
+    }
+    out.sort();
+    out.dedup();
+    out
+}
+
+fn run_shortstruct(len: usize, unit: &Value, only: Option<&[Tok]>, ctx: &mut Ctx) {
+    let p = match build_checked(&shortstruct_opts()) {
+        Ok(p) => p,
+        Err(_) => return,
+    };
+    let alpha = toks(&["-r", "-t", "-f", "-w", "1", "-v"]);
+    tree(&alpha, len, &mut |argv| {
+        ctx.s.states += 1;
+        // duplicates of a flag inside one word are another matter (-tt): spelled-out lines that
+        // the parser accepts never have them next to each other, no need to exclude anything
+        let base = match run(&p, argv) {
+            Outcome::Value(v) => v,
+            _ => return true,
+        };
+        for alt in joined_spellings(argv) {
+            if only.map_or(false, |o| o != alt.as_slice()) {
+                continue;
+            }
+            ctx.begin_case(|| json!({"argv": alt, "spelled_out": argv}));
+            ctx.s.evaluations += 1;
+            ctx.s.transitions += 1;
+            match run(&p, &alt) {
+                Outcome::Value(v) if v == base => {
+                    ctx.s.nontrivial += 1;
+                    ctx.s.validated += 1;
+                    ctx.count("combined-spellings-of-a-block-judged");
+                }
+                other => {
+                    let mut sig = BTreeMap::new();
+                    sig.insert("clause".to_string(), "combined-short-words-spell-the-same-block".to_string());
+                    sig.insert("observed".to_string(), other.class().to_string());
+                    ctx.violation(Violation { property: "C19".into(), rule: "combined-short-words-spell-the-same-block".into(), sig, unit: unit.clone(), case: json!({"argv": alt, "spelled_out": argv}), expected: format!("{:?} (the value of the spelled-out line {:?})", base, argv.iter().map(|t| t.lossy()).collect::<Vec<_>>()), observed: other.brief(), size: alt.len() * 1000 });
+                }
+            }
+        }
+        true
+    });
+}
+
 impl Check for C19 {
     fn id(&self) -> &'static str {
         "C19"
@@ -676,9 +771,14 @@ impl Check for C19 {
                 }
             }
         }
+        out.push(json!({"shortstruct": tier.pick(6, 7)}));
         out
     }
     fn run_unit(&self, unit: &Value, ctx: &mut Ctx) {
+        if let Some(n) = unit.get("shortstruct").and_then(|n| n.as_u64()) {
+            run_shortstruct(n as usize, unit, None, ctx);
+            return;
+        }
         if let Some(n) = unit.get("nest") {
             let d: NestDef = serde_json::from_value(n.clone()).unwrap();
             let p = match build_checked(&nest_opts(&d)) {
@@ -716,6 +816,11 @@ impl Check for C19 {
         });
     }
     fn replay(&self, unit: &Value, case: &Value, ctx: &mut Ctx) {
+        if let Some(n) = unit.get("shortstruct").and_then(|n| n.as_u64()) {
+            let argv: Vec<Tok> = serde_json::from_value(case["argv"].clone()).unwrap_or_default();
+            run_shortstruct(n as usize, unit, Some(&argv), ctx);
+            return;
+        }
         if let Some(n) = unit.get("nest") {
             let d: NestDef = serde_json::from_value(n.clone()).unwrap();
             let argv: Vec<Tok> = serde_json::from_value(case["argv"].clone()).unwrap_or_default();
